@@ -121,6 +121,14 @@ def programs(ctx):
         for wn in ("try", "fn5", "nilco", "defer", "go"):
             _, wsrc = wrap(wn, src)
             out.append({"id": "rerun-%s|%s" % (nm, wn), "src": wsrc + "\np(99)", "pre": pre, "threads": THREADS.get(wn, 0)})
+    # the process is crowded: ANOTHER run, never cancelled, keeps thousands of script goroutines alive while the cancelled run starts goroutines of its own
+    for nm, src in (("go-then-spin", "go func() {\n}()\nfor {\n p(1)\n}"), ("go-loop", "for {\n go func() {\n }()\n p(1)\n}"), ("go-in-fn", "func sg() {\n go func() {\n }()\n}\nfor {\n sg()\n p(1)\n}"),
+                    ("go-spread", "func tg(a, b) {\n}\nfor {\n go tg([1, 2]...)\n p(1)\n}"), ("chan-make-loop", "for {\n cq = make(chan int64, 1)\n cq <- 1\n p(<-cq)\n}")):
+        out.append({"id": "crowded-%s|bare" % nm, "src": src, "pre": "", "threads": 1, "crowd": 6000 if ctx.quick() else 20000})
+    # the cancellation arrives when the recursion is very deep: unwinding is part of the bounded time
+    for nm, src, ms in (("deep-recursion", "func dr(n) {\n return dr(n + 1) + 1\n}\ndr(0)", 300), ("deep-recursion-try", "func dt(n) {\n try {\n  return dt(n + 1) + 1\n } catch e {\n  throw e\n }\n}\ndt(0)", 200),
+                        ("deep-mutual", "func da(n) {\n return db(n + 1)\n}\nfunc db(n) {\n return da(n + 1)\n}\nda(0)", 300)):
+        out.append({"id": "%s|late" % nm, "src": src, "pre": "", "threads": 0, "delay_ms": ms})
     pairs = [(a, b) for a in WRAPS for b in WRAPS if not b.startswith("xfn")]
     rng.shuffle(pairs)
     npairs = 40 if ctx.quick() else 160
@@ -172,7 +180,7 @@ def run(ctx):
         pp = os.path.join(ctx.work, "cprogs_%d.ndjson" % k)
         op = os.path.join(ctx.work, "cobs_%d.ndjson" % k)
         vlib.write_ndjson(pp, part)
-        p = vlib.run_cmd(ctx, [binp, pp, op, str(maxgate)], timeout=3000, ok_codes=None)
+        p = vlib.run_cmd(ctx, [binp, pp, op, str(maxgate)], timeout=900, ok_codes=None)
         obs = vlib.read_ndjson(op) if os.path.exists(op) else []
         return obs, p.returncode, p.stderr[-2000:]
     with concurrent.futures.ThreadPoolExecutor(max_workers=n) as ex:
